@@ -168,7 +168,13 @@ class HandlerPrims:
                 p2 = path.copy()
                 p2.events.append(("mem_fault", "write", "bytes", args[1], site))
                 outs.append((ERR(("memerr", args[1])), p2))
-            ev.append(("mem_write", "bytes", args[1], I._deref_all(path, args[2]), site))
+            data = I._deref_all(path, args[2])
+            whole = le_value(data) if getattr(self, "normalize_le", True) else None
+            if whole is not None:
+                # the little-endian bytes of one integer, all of them in order: the same store as mem_write_N(value)
+                ev.append(("mem_write", whole[1], args[1], whole[0], site))
+            else:
+                ev.append(("mem_write", "bytes", args[1], data, site))
             path.tags["memver"] = mv + 1
             return [(OK(UNIT), path)] + outs
         if kind == "mem_addr":
@@ -223,3 +229,31 @@ def self_ref(mut=True):
 
 
 INSTR = ("init", "instr", 0)
+
+
+def le_value(data):
+    """(x, 8n) when `data` is the array [x as u8, (x >> 8) as u8, ..., (x >> 8(n-1)) as u8] for n in 1, 2, 4, 8, 16"""
+    while data[0] == "deref" and isinstance(data[1], tuple):
+        data = data[1]
+    if data[0] != "agg" or data[1] != "array" or len(data[3]) not in (1, 2, 4, 8, 16):
+        return None
+    src = None
+    for i, b in enumerate(data[3]):
+        if b[0] != "cast" or b[-1] != 8:
+            return None
+        inner = b[1]
+        if i == 0:
+            x = inner
+        else:
+            if not (inner[0] == "bin" and inner[1] in ("Shr", "ShrUnchecked") and inner[3][0] == "int" and inner[3][1] == 8 * i):
+                return None
+            x = inner[2]
+        if src is None:
+            src = x
+        elif x != src:
+            return None
+    n = 8 * len(data[3])
+    from .absint import width_of, W as W_
+    if width_of(src) == n:
+        return src, n
+    return ("cast", src, width_of(src), False, n), n
